@@ -32,6 +32,14 @@ def plan_roundtrip(pid, rng, quick):
         bs = [uniform_batch(rng, v), uniform_batch(rng, v), uniform_batch(rng, 1 + (v % 3)), otap.rand_batch(rng, rich=2)]
         plan.append({"id": "rt-uniform/%s/%d" % (signal, i), "signal": signal, "opts": otap.opts_random(rng) if i % 2 else {},
                      "batches": bs, "props": [pid], "mode": 0})
+    # an emitted batch is a value of its own: the consumer is one or more batches behind the producer (queue, retry buffer)
+    for i in range(12 if quick else 150):
+        st = otap.rand_stream(rng, "rt-lag/%s/%d" % (signal, i), signal, [pid], nb=rng.choice([3, 4, 6]))
+        if i % 3 == 0:      # the same input again: messages of equal size on the same sub-streams
+            st["batches"] = [st["batches"][0]] + [{"resend": 1} for _ in range(len(st["batches"]) - 1)]
+        st["lag"] = rng.choice([1, 1, 2, 99])
+        st["nowire"] = True
+        plan.append(st)
     # a refused batch (more resources than 16-bit ids) must not disturb the batches that follow it
     for i in range(3 if quick else 12):
         bs = [otap.rand_batch(rng, rich=2), {"gen": "parents", "n": rng.choice([65536, 65540]), "nres": 70000, "with": "resattr", "nodump": True},
